@@ -138,7 +138,6 @@ func vRunE2ECancel(c vCase) string {
 	return fmt.Sprintf("ret=%s retms=%d hstarted=%v hctx=%d", cls, retms, hstarted, atomic.LoadInt32(&hctx))
 }
 
-
 // two notification handlers are running on the far transport; a later Notify is abandoned by its caller (cancel / deadline)
 // while its frame is still being written; nobody cancelled the two running notifications: their contexts must stay live
 func vRunE2ENotify(c vCase) string {
@@ -227,4 +226,88 @@ func vRunE2ENotify(c vCase) string {
 	foreign := atomic.LoadInt32(&cancelled)
 	close(release)
 	return fmt.Sprintf("ret=%s foreign=%d started=%d", rs, foreign, atomic.LoadInt32(&nstarted))
+}
+
+// vRunE2EBurst: n calls are being served by the other transport; the peer then stops reading for a moment (the writer is stuck
+// inside Write with an unrelated frame) and the caller gives up ALL of them at once (one shared parent context); when the peer
+// reads again every one of the n handlers must see its context cancelled.
+func vRunE2EBurst(c vCase) string {
+	a, b, err := vTCPPair()
+	if err != nil {
+		return "setup=" + err.Error()
+	}
+	n := 80
+	fmt.Sscanf(c.get("n"), "%d", &n)
+	gc := &vGatedConn{Conn: a}
+	lf := NewSimpleLogFactory(vQuietOutput{}, vQuietOpts{})
+	cx := NewTransport(gc, lf, nil, nil, 1<<20)
+	sx := NewTransport(b, lf, nil, nil, 1<<20)
+	defer cx.Close()
+	defer sx.Close()
+	var started, cancelled int32
+	srv := NewServer(sx, nil)
+	_ = srv.Register(Protocol{Name: "p", Methods: map[string]ServeHandlerDescription{
+		"m": {
+			MakeArg: func() interface{} { var v interface{}; return &v },
+			Handler: func(ctx context.Context, arg interface{}) (interface{}, error) {
+				atomic.AddInt32(&started, 1)
+				select {
+				case <-ctx.Done():
+					atomic.AddInt32(&cancelled, 1)
+				case <-time.After(4 * time.Second):
+				}
+				return nil, nil
+			},
+		},
+		"n": {
+			MakeArg: func() interface{} { var v interface{}; return &v },
+			Handler: func(ctx context.Context, arg interface{}) (interface{}, error) { return nil, nil },
+		}}})
+	srv.Run()
+	cli := NewClient(cx, nil, nil)
+	ctx, cancel := context.WithCancel(context.Background())
+	defer cancel()
+	ret := make(chan error, n)
+	for i := 0; i < n; i++ {
+		i := i
+		go func() {
+			var res interface{}
+			ret <- cli.Call(ctx, "p.m", []interface{}{i}, &res, 0)
+		}()
+	}
+	for i := 0; i < 30000 && atomic.LoadInt32(&started) < int32(n); i++ {
+		time.Sleep(100 * time.Microsecond)
+	}
+	// the peer stops reading: shut the gate and occupy the writer with an unrelated notification
+	gc.mu.Lock()
+	gate := make(chan struct{})
+	gc.gate = gate
+	before := atomic.LoadInt32(&gc.entered)
+	gc.mu.Unlock()
+	go func() { _ = cli.Notify(context.Background(), "p.n", []interface{}{0}, 0) }()
+	for i := 0; i < 20000 && atomic.LoadInt32(&gc.entered) == before; i++ {
+		time.Sleep(100 * time.Microsecond)
+	}
+	t0 := time.Now()
+	cancel()
+	returned := 0
+	deadline := time.After(3 * time.Second)
+loop:
+	for returned < n {
+		select {
+		case <-ret:
+			returned++
+		case <-deadline:
+			break loop
+		}
+	}
+	retms := time.Since(t0).Milliseconds()
+	gc.mu.Lock()
+	close(gate)
+	gc.gate = nil
+	gc.mu.Unlock()
+	for i := 0; i < 30000 && atomic.LoadInt32(&cancelled) < int32(n); i++ {
+		time.Sleep(100 * time.Microsecond)
+	}
+	return fmt.Sprintf("n=%d started=%d returned=%d retms=%d cancelled=%d", n, atomic.LoadInt32(&started), returned, retms, atomic.LoadInt32(&cancelled))
 }
